@@ -252,6 +252,21 @@ func (g *c14Graph) closureOf(ctx *c14Ctx, call *ast.CallExpr) *c14Fn {
 		if !ok || o.IsField() || !ctx.owns(o.Pos()) {
 			return nil
 		}
+		// a function-typed parameter of a followed helper whose argument is a function literal (callback)
+		for c := ctx; c != nil && c.g == g && c.call != nil && c.parent != nil; c = c.parent {
+			arg := c14Bindings(c.fn, c.call)[o]
+			if arg == nil {
+				break
+			}
+			if lit, ok := ast.Unparen(arg).(*ast.FuncLit); ok {
+				return g.e.fnOfLit(c.parent.fn.pk, lit)
+			}
+			po, ok := objOf(c.parent.fn.info, arg).(*types.Var)
+			if !ok {
+				break
+			}
+			o = po // handed on from the caller's own parameter
+		}
 		ws := c14Writes(info, ctx.fn.body, o)
 		if len(ws) != 1 {
 			return nil
